@@ -213,6 +213,34 @@ def check_message(mw: MsgWorld, mbox: str, uid: int, raw: bytes, spec: dict | No
                                 mw.fail("C16.partial", dict(det, origin="end" if o >= m - 1 else "start", past_end=o >= m, item=item), replay,
                                         (o, c, want[:40]), (k, gotv[:40]))
                                 break
+    # section menu: every shape is asked for sections that exist, that do not, and that make no sense for it; each command
+    # is answered (OK / NO / BAD), every response is well-formed (cmd() checks the syntax and the literal counts), the
+    # session survives; a partial of a section is a slice of it.  (Observed, outside the properties: BODY[n.TEXT] of a
+    # message/rfc822 *part* returns the whole encapsulated message, not its text -- C16 states the HEADER+TEXT equation
+    # for the stored message only.)
+    SECTIONS = ["1", "2", "3", "1.1", "2.1", "2.2", "1.MIME", "2.MIME", "2.HEADER", "2.TEXT", "2.1.MIME", "1.HEADER.FIELDS (SUBJECT)",
+                "2.HEADER.FIELDS (SUBJECT TO)", "2.HEADER.FIELDS.NOT (TO)", "HEADER.FIELDS.NOT (SUBJECT)", "0", "1.TEXT", "TEXT.1", "4.5.6"]
+    got_sec = {}
+    for sec in SECTIONS:
+        r, resps = mw.cmd(f"UID FETCH {uid} (BODY.PEEK[{sec}])", replay)
+        if r is not None and r.typ == "OK":
+            for x in resps:
+                if x.kind == "untagged" and x.typ == "FETCH" and not x.errors:
+                    for k, v in zip(x.data[0::2], x.data[1::2]):
+                        if str(k).upper().startswith("BODY[") and v is not None:
+                            got_sec[sec] = bytes(v)
+    r, _ = mw.cmd("NOOP", replay)
+    if r is None or r.typ != "OK":
+        mw.fail("C06.session-unusable-afterwards", dict(det, after="section menu"), replay, "OK", str(r))
+    for sec in ("1", "2"):
+        if sec in got_sec and len(got_sec[sec]) > 3:
+            whole = got_sec[sec]
+            r, resps = mw.cmd(f"UID FETCH {uid} (BODY.PEEK[{sec}]<1.{len(whole) + 9}> BODY.PEEK[{sec}]<0.2>)", replay)
+            for x in resps:
+                if x.kind == "untagged" and x.typ == "FETCH" and not x.errors:
+                    vals = [bytes(v) for k, v in zip(x.data[0::2], x.data[1::2]) if str(k).upper().startswith(f"BODY[{sec}]<") and v is not None]
+                    if len(vals) == 2 and (vals[0] != whole[1:] or vals[1] != whole[:2]):
+                        mw.fail("C16.partial", dict(det, origin="start", past_end=False, item="part " + sec), replay, (whole[1:41], whole[:2]), (vals[0][:40], vals[1]))
     # C07: structural items -- syntax is checked by cmd(); decode what can be decoded
     multipart = b"multipart/" in hdr.lower()
     r, resps = mw.cmd(f"UID FETCH {uid} (ENVELOPE BODYSTRUCTURE BODY INTERNALDATE FLAGS BODY.PEEK[1] {'BODY.PEEK[1.MIME] BODY.PEEK[2] ' if multipart else ''}"
